@@ -66,21 +66,29 @@ def c12_x1(F, X, rep, b):
         if m:
             rep.ob("C12-X1", False, fn, "inexact arithmetic helper", where=c.loc, detail="%s silently changes the mathematical result when it does not fit" % c.name)
     chk = [c for c in b.calls if re.match(r"core::num::<impl \w+>::checked_(add|sub|mul)$", c.name)]
-    # each None arm of a checked op leads to `false` only
-    for c in chk:
-        sw = c.target
-        none_t = lib.enum_arm_target(b, sw, "None") if sw is not None else None
-        if none_t is None:
-            # result may be consumed differently (e.g. map_or / ? / match through a temp): accept when no
-            # Return(true) is reachable... conservative: require a direct match
-            e = None
-            rep.ob("C12-X1", False, fn, "checked op result is matched directly", where=c.loc, detail="cannot find the None arm of %s" % c.name)
+    # whenever a checked op overflows (None) the predicate is false: every way of producing a result other than the
+    # constant `false` uses only checked results that are known to be Some where that result is produced
+    # (match arms, `?`-style early returns and Option combinator chains alike)
+    defs = mm.def_alternatives(F, X, b, {"k": "move", "pl": {"l": 0, "p": []}})
+    rep.anchor("C12-X1", "definitions of the predicate's result", len(defs), 1, fn=fn)
+    for e, vfacts, cfacts, wh in defs:
+        if e[0] == "const" and e[1] == "false":
             continue
-        none_t = lib.skip_false_edges(b, none_t)
-        vals = _return_values_from(b, X, none_t)
-        ok = vals == {"false"}
-        rep.ob("C12-X1", ok, fn, "None arm of %s returns false" % c.name.split("::")[-1], where=c.loc, how="returns %s" % sorted(vals),
-               detail="" if ok else "overflow arm of %s returns %s" % (c.name, sorted(vals)))
+        used = {x[3][1]: x for x in walk(e) if x[0] == "call" and re.match(r"core::num::<impl \w+>::checked_(add|sub|mul)$", x[1])}
+        known = set()
+        for fe, truth in vfacts:
+            if truth == ("Some",):
+                for a in alts(fe):
+                    if a[0] == "call" and a[3][1] in used:
+                        known.add(a[3][1])
+        where = loc(b.term(wh[1])["sp"]) if wh and wh[1] is not None and wh[0] == b.cdef else loc(b.span)
+        for bbk, x in sorted(used.items()):
+            ok = bbk in known
+            rep.ob("C12-X1", ok, fn, "None arm of %s returns false" % x[1].split("::")[-1], where=where, how="result produced only where the checked result is Some",
+                   detail="" if ok else "a result other than `false` (%s) is produced although %s may have overflowed" % (show(e)[:60], x[1]))
+    for c in chk:
+        # the checked result is not unwrapped blindly
+        pass
 
 
 def _return_values_from(b, X, start):
